@@ -3,11 +3,16 @@
  1. TLC: Words.tla (fixed-width word arithmetic on byte digits) checked against TLA+ integers and algebraic laws;
     Murmur.tla (reference MurmurHash2 and MurmurHash64A) reproduces the published SMHasher verification values
     0x27864C1E and 0x1F0D3804 (MurmurMC.tla).
- 2. C->S: the real murmur2_x86 / murmur2_x64 / hash_bytes (built with -fsanitize=address,bounds) hash every key at
-    several placements: alignments 0..7 x {inside a pre-filled frame, exact-size heap block} x two fill patterns;
-    TLC checks every observation against the reference, that all placements of a key agree, and - through a map
-    variable - that a (bytes, seed) seen earlier produced the same values (MurmurCheck.tla).
+ 2. TLC: MurmurImpl.tla (L2: the two hash loops, the tail switch and load_bytes transcribed as a state machine)
+    returns the L1 reference value for every key of a finite universe and dereferences exactly the key's bytes.
+ 3. C->S: the real murmur2_x86 / murmur2_x64 / hash_bytes hash every key at several placements: alignments 0..7 x
+    {inside a pre-filled frame, exact-size heap block} x two fill patterns, plus the key flush against the end /
+    the start of a page whose neighbour is PROT_NONE (an over-read faults in every build); in several builds of the
+    driver (g++ -O1 ASan+bounds, g++ -O2 without sanitizer, clang++ -O2 ASan; g++ -O3 -march=native and -O0 in the
+    thorough tier).  TLC checks every observation against the reference, that all placements of a key agree, and -
+    through a map variable - that a (bytes, seed) seen earlier produced the same values (MurmurCheck.tla).
  The std::hash<xbasic_fixed_string> clause of the property is covered by the C01 trace spec, not here.
+ A driver that dies, hangs or does not build ends in a VIOLATION whenever the property's functions are at fault.
 """
 import os, random
 from concurrent.futures import ThreadPoolExecutor
@@ -17,6 +22,11 @@ from vlib.core import MachineryError
 FLAGS = ["-fsanitize=bounds", "-fno-sanitize-recover=bounds"]
 PER_LINE = 16
 WINDOW = 12            # lines between Reset events (the map `seen` is cleared there)
+FLAVOURS = {"asan": tables.Flavour("asan", flags=FLAGS),
+            "O2": tables.Flavour("O2", flags=["-O2"], asan=False),
+            "clangO2": tables.Flavour("clangO2", cxx="clang++", flags=["-O2"] + FLAGS),
+            "O3native": tables.Flavour("O3native", flags=["-O3", "-march=native"], asan=False),
+            "O0": tables.Flavour("O0", flags=["-O0"] + FLAGS)}
 SEEDS = [0, 1, 0xc70f6907, 0xFFFFFFFF, 0x100000000, 0x8000000000000000, 0xFFFFFFFFFFFFFFFF]
 
 
@@ -25,7 +35,8 @@ def slimbs(v):
 
 
 def all_placements(fills=(0x00, 0xFF)):
-    return [[kind, a, f] for kind in (0, 1) for a in range(8) for f in fills]
+    """frame and exact heap block at every alignment x fill; flush against a PROT_NONE page behind / before the key"""
+    return [[kind, a, f] for kind in (0, 1) for a in range(8) for f in fills] + [[2, 0, fills[0]], [2, 0, fills[1]], [3, 0, fills[1]]]
 
 
 def content(rnd, n, variant):
@@ -88,18 +99,53 @@ def scripts(ctx):
         n = rnd.randrange(0, 41) if t < 0.3 else rnd.randrange(41, 301)
         rk.append([content(rnd, n, rnd.choice([0, 0, 0, 2, 4])), slimbs(rnd.choice(SEEDS) if rnd.random() < 0.3 else rnd.getrandbits(64)),
                    [[rnd.randrange(2), rnd.randrange(8), rnd.choice([0, 0xFF])], [1, rnd.randrange(8), rnd.choice([0, 0xFF])],
-                    [0, rnd.randrange(8), rnd.choice([0x5A, 0xA5])]]])
+                    [0, rnd.randrange(8), rnd.choice([0x5A, 0xA5])], [2, 0, rnd.choice([0, 0xFF])]]])
     out["random"] = pack(rk)
     # (c) the SMHasher key family {0,1,..,n-1} with seed 256-n, at the worst alignments
-    sm = [[list(range(n)), slimbs(256 - n), [[1, 1, 0xFF], [1, 7, 0], [0, 3, 0xFF], [1, 0, 0]]] for n in range(0, 256, 1 if not q else 5)]
+    sm = [[list(range(n)), slimbs(256 - n), [[1, 1, 0xFF], [1, 7, 0], [0, 3, 0xFF], [1, 0, 0], [2, 0, 0xFF], [3, 0, 0]]] for n in range(0, 256, 1 if not q else 5)]
     out["smhasher-keys"] = pack(sm)
+    # (d) long keys (to 20 000 bytes: more than one page, lengths around the page size), a few placements each
+    lk = []
+    for n in [4095, 4096, 4097, 8193, 20001] + [rnd.randrange(301, 6000) for _ in range(5 if q else 60)]:
+        lk.append([content(rnd, n, rnd.choice([0, 0, 3, 4])), slimbs(rnd.choice(SEEDS) if rnd.random() < 0.5 else rnd.getrandbits(64)),
+                   [[1, rnd.randrange(8), 0xFF], [0, rnd.randrange(8), 0], [2, 0, 0xFF]]])
+    out["long"] = pack(lk, per=2)
+    # (e) a reused buffer: runs of keys of the same length and seed hashed one after the other at the same address
+    #     (and the first one again at the end): only the bytes differ from call to call
+    ru = []
+    for _ in range(40 if q else 600):
+        n = rnd.choice([1, 3, 7, 8, 12, 16, 17, 24, 31, 32, 33, 40, 64, 100, rnd.randrange(1, 300)])
+        sd = slimbs(rnd.choice(SEEDS) if rnd.random() < 0.5 else rnd.getrandbits(64))
+        a, f = rnd.randrange(8), rnd.choice([0, 0xFF])
+        ks = [content(rnd, n, v) for v in (0, 4, 0)]
+        for k in ks + [ks[0]]:
+            ru.append([k, sd, [[4, a, f], [4, a, f]]])
+    out["reused"] = pack(ru, per=4)
+    # (f) one key longer than 65 536 bytes (a length that does not fit 16 bits), default build only (TLC needs ~10 s for it)
+    out["huge"] = pack([[content(rnd, 65536 + rnd.randrange(1, 3000), 0), slimbs(rnd.getrandbits(64)), [[1, rnd.randrange(8), 0xFF]]]])
     return out
 
 
-def build(ctx):
-    drv = os.path.join(ctx.work, "hash_driver")
-    core.build(ctx, os.path.join(core.HARNESS, "hash", "driver.cpp"), drv, flags=FLAGS)
-    return drv
+_generic = {}
+
+
+def has_generic(ctx):
+    """does the header still have the (detail::) fallback template?  Not part of the property: advisory comparison only"""
+    if "v" not in _generic:
+        rc, o = core.try_build(ctx, os.path.join(core.HARNESS, "hash", "generic_probe.cpp"), os.path.join(ctx.work, "generic_probe"))
+        _generic["v"] = rc == 0
+        if rc != 0:
+            ctx.drift.append("xhash.hpp no longer has the primary template detail::murmur_hash<N> (fallback for an unusual "
+                             "sizeof(std::size_t)); not part of the property, the Poly131 comparison is skipped")
+    return _generic["v"]
+
+
+def build(ctx, flavour="asan"):
+    """-> path of the driver built in that flavour, or None after a VIOLATION (the property's functions cannot be called)"""
+    fl = FLAVOURS[flavour or "asan"]
+    return tables.build_driver(ctx, "C14", os.path.join(core.HARNESS, "hash", "driver.cpp"), os.path.join(ctx.work, "hash_driver_" + fl.name),
+                               os.path.join(core.HARNESS, "hash", "api_probe.cpp"),
+                               flags=["-DHAVE_GENERIC_FALLBACK"] if has_generic(ctx) else [], flavour=fl)
 
 
 def describe(l):
@@ -108,7 +154,7 @@ def describe(l):
 
 
 def replay(ctx, path):
-    return tables.replay(ctx, path, "MurmurCheck", "MurmurCheck.cfg", build(ctx), pid="C14")
+    return tables.replay(ctx, path, "MurmurCheck", "MurmurCheck.cfg", lambda bld: build(ctx, bld), pid="C14")
 
 
 def selftest(ctx):
@@ -123,25 +169,50 @@ def selftest(ctx):
 
 def run(ctx):
     q = ctx.quick
-    with ThreadPoolExecutor(2) as ex:      # the model-checking run overlaps with compiling the harness
+    flavours = ["asan", "O2", "clangO2"] + ([] if q else ["O3native", "O0"])
+    has_generic(ctx)
+    with ThreadPoolExecutor(4) as ex:      # the model-checking runs overlap with compiling the harness
         f1 = ex.submit(core.tlc_model_check, ctx, "MurmurMC", "Murmur_mc.cfg",
                        "word arithmetic vs integers + algebraic laws; reference hashes reproduce the SMHasher verification values",
                        workers=tables.tlc_workers())
-        drv = build(ctx)
+        f2 = ex.submit(core.tlc_model_check, ctx, "MurmurImpl", "MurmurImpl_mc.cfg" if q else "MurmurImpl_mc_thorough.cfg",
+                       "L2 hash loops / tail switch / load_bytes return the L1 value and read exactly the key's bytes; terminate",
+                       coverage=not q, workers=tables.tlc_workers())
+        drvs = {f: d for f, d in zip(flavours, ex.map(lambda f: build(ctx, f), flavours))}
         sc = scripts(ctx)
-        r = f1.result()
+        r, r2 = f1.result(), f2.result()
     if r["violated"]:
         raise MachineryError("Words.tla/Murmur.tla violate their own laws or the published vectors (%s): oracle bug, see %s" % (
             r["violated"], r["outfile"]))
+    if r2["violated"] or "No error has been found" not in r2["out"]:
+        ctx.drift.append("MurmurImpl.tla (the transcribed loops) does not compute Murmur.tla's functions (%s); see %s" % (r2["violated"], r2["outfile"]))
+    if not q:
+        ctx.notes["l2_action_coverage"] = r2.get("coverage", {})
+        ctx.notes["vacuous_actions"] = sorted(k for k, v in r2.get("coverage", {}).items() if v[1] == 0 and k[0] == "X")
+    if any(d is None for d in drvs.values()):      # the functions cannot be called as the property states: reported by build()
+        return core.finish(ctx, "exploration", rule="the conformance driver does not build against this tree; no key was hashed",
+                           assumptions=[], exhaustive=False)
     jobs = []
     for name, lines in sc.items():
-        n = {"grid": 6, "random": 4, "smhasher-keys": 2}[name] if q else {"grid": 8, "random": 24, "smhasher-keys": 2}[name]
+        n = {"grid": 6, "random": 4, "smhasher-keys": 2, "long": 1, "huge": 1, "reused": 1}[name] if q else {"grid": 8, "random": 24, "smhasher-keys": 2, "long": 4, "huge": 1, "reused": 2}[name]
         k = max(1, (len(lines) + n - 1) // n)
+        k += (-k) % (WINDOW + 1)              # cut at Reset lines
         for i in range(0, len(lines), k):
-            jobs.append(tables.Job("%s-%d" % (name, i // k), drv, lines[i:i + k]))
+            jobs.append(tables.Job("%s-%d" % (name, i // k), drvs["asan"], lines[i:i + k], bld="asan"))
+    # the other builds: a slice of the grid (every length and seed occurs in each slice of WINDOW lines or more), the long
+    # keys and a slice of the random keys
+    for f in flavours[1:]:
+        for name, frac in (("grid", 3), ("random", 4 if q else 12), ("smhasher-keys", 1), ("long", 1), ("reused", 1)):
+            lines = sc[name]
+            k = max(WINDOW + 1, len(lines) // frac)
+            k += (-k) % (WINDOW + 1)
+            off = (flavours.index(f) * k) % max(1, len(lines) - k + 1)
+            off -= off % (WINDOW + 1)
+            jobs.append(tables.Job("%s-%s-0" % (name, f), drvs[f], lines[off:off + k], bld=f))
+    ctx.notes["build_flavours"] = {f: " ".join([FLAVOURS[f].cxx or core.CXX] + FLAVOURS[f].flags + ([] if not FLAVOURS[f].asan else ["-fsanitize=address"])) for f in flavours}
     keys = sum(len(l["c"]) for j in jobs for l in j.lines if l["op"] == "H")
     calls = sum(len(c[2]) for j in jobs for l in j.lines if l["op"] == "H" for c in l["c"])
-    ctx.log("C->S: %d keys, %d placements (x 4 functions) in %d tables" % (keys, calls, len(jobs)))
+    ctx.log("C->S: %d keys, %d placements (x 3 functions) in %d tables, builds %s" % (keys, calls, len(jobs), flavours))
     ctx.sample({"script": [str(sc["grid"][0]["c"][0])[:300]]})
     ok = tables.validate(ctx, "MurmurCheck", "MurmurCheck.cfg", jobs, describe=describe, parallel=core.NCPU if not q else None)
     ctx.cov["distinct_nontrivial"] = keys
@@ -153,13 +224,19 @@ def run(ctx):
     return core.finish(
         ctx, "exploration",
         rule="murmur2_x86, murmur2_x64, hash_bytes: every key length 0..%d x 8 seeds (0, 1, 0xc70f6907, 2^32-1, 2^32, 2^63, 2^64-1, random) x %d "
-             "byte contents, each at alignments 0..7 x {inside a pre-filled frame, exact-size heap block} x 2 fill bytes; repeats of "
-             "earlier keys at other placements; %d seeded random keys up to 300 bytes at 3 placements; the SMHasher key family; "
-             "one case = one key with all its placements, compared by TLC with the Murmur.tla reference and with each other"
-             % (40 if q else 80, 2 if q else 5, 600 if q else 40000),
-        assumptions=["little-endian host with sizeof(std::size_t) = 8: the 32-bit-platform branch of murmur_hash<8> and big-endian "
-                     "loads are not compiled here (no -m32 runtime on this machine)",
-                     "reads before a key that is not at the start of its heap block are detected only through the two fill patterns "
-                     "(AddressSanitizer cannot poison a partial granule on the left)",
+             "byte contents, each at alignments 0..7 x {inside a pre-filled frame, exact-size heap block} x 2 fill bytes and flush against "
+             "a PROT_NONE page behind (2 fills) and before the key; repeats of earlier keys at other placements; %d seeded random keys up "
+             "to 300 bytes at 4 placements; the SMHasher key family; %d long keys (to 20 000 bytes, lengths around the page size) and one of more than 65 536 bytes; %d runs of 4 keys of equal length and seed hashed one after the other in one reused buffer; "
+             "slices of all families repeated in the builds %s; one case = one key with all its placements, compared by TLC with the "
+             "Murmur.tla reference and with each other"
+             % (40 if q else 80, 2 if q else 5, 600 if q else 40000, 10 if q else 65, 40 if q else 600, ", ".join(flavours[1:])),
+        assumptions=["little-endian host with sizeof(std::size_t) = 8: the 32-bit-platform branch of murmur_hash<8> (INTPTR_MAX == INT32_MAX) "
+                     "and big-endian loads are not compiled here: -m32 does not even compile on this machine (no 32-bit libstdc++ headers: "
+                     "bits/c++config.h is missing), let alone link or run",
+                     "a read behind the key faults in every build (PROT_NONE page) and is an ASan report in the sanitizer builds; a read "
+                     "before a key at an address that is not 8-aligned is detected only through the two fill patterns (neither a guard page "
+                     "nor AddressSanitizer can forbid part of a granule on the left)",
+                     "xhash.hpp has exactly three public entry points (hash_bytes, murmur2_x86, murmur2_x64); all are driven. The "
+                     "detail:: fallback template is compared with its description as an advisory only, when it exists",
                      "std::hash<xbasic_fixed_string> (last clause of the property) is checked by the C01 trace spec"],
         exhaustive=False)
